@@ -1,8 +1,57 @@
-//! C12 correspondence streams (stub).
-use crate::util::Opts;
+//! C12: MBC register protocol through the bus. One case per line:
+//! c12 type=T rom=R ram=M ws=a:v;a:v;... | rb=<rom bank after each write> mb=<ram bank ...> r0=<byte at 0x0000> r4=<byte at 0x4000> ra=<byte at 0xA000>
+use crate::mem::{memory_read_byte, memory_write_byte, MemoryAreas};
+use crate::roms::*;
+use crate::util::{Opts, Rng};
 use std::io::Write;
 
-pub fn run(sub: &str, _opts: &Opts, _w: &mut dyn Write) {
-  eprintln!("stream c12.{} not implemented", sub);
-  std::process::exit(2);
+fn gen_write(rng: &mut Rng) -> (u16, u8) {
+  let addr = match rng.below(8) {
+    0 => *rng.pick(&[0x0000u16, 0x1fff, 0x2000, 0x3fff, 0x4000, 0x5fff, 0x6000, 0x7fff]),
+    1 | 2 => 0x2000 + rng.below(0x2000) as u16,
+    3 => 0x4000 + rng.below(0x2000) as u16,
+    4 => 0x6000 + rng.below(0x2000) as u16,
+    _ => rng.below(0x8000) as u16,
+  };
+  let value = match rng.below(6) {
+    0 => *rng.pick(&[0u8, 1, 2, 3, 4, 0x0a, 0x1f, 0x20, 0x21, 0x3f, 0x40, 0x60, 0x7f, 0x80, 0xe0, 0xff]),
+    1 => rng.below(4) as u8,
+    2 => rng.below(32) as u8,
+    _ => rng.u8(),
+  };
+  (addr, value)
+}
+
+pub fn run(_sub: &str, opts: &Opts, w: &mut dyn Write) {
+  let mut rng = Rng::new(opts.seed ^ 0xc12);
+  let per_cfg = if opts.thorough { 400 } else { 6 };
+  let len = if opts.thorough { 40 } else { 24 };
+  for &t in TYPES.iter() { for &r in ROM_CODES.iter() { for &m in RAM_CODES.iter() {
+    let mut mem = mk_mem(t, r, m, &[]);
+    // tag every 8 KiB RAM bank with its index + 1
+    let banks = mem.cart_ram.len() / 0x2000;
+    for b in 0..banks { mem.cart_ram[b * 0x2000] = (b + 1) as u8; }
+    if banks == 0 && mem.cart_ram.len() > 0 { mem.cart_ram[0] = 1; }
+    let p = &mut mem as *mut MemoryAreas;
+    for _ in 0..per_cfg {
+      // reset the controller registers to power-on values through the protocol itself is not possible,
+      // so each case starts from a fresh cart state
+      mem.cart_state = header(t, r, m).create_cart_state();
+      let n = 1 + rng.below(len) as usize;
+      let mut ws = Vec::new(); let mut rb = Vec::new(); let mut mb = Vec::new();
+      let mut r0 = Vec::new(); let mut r4 = Vec::new(); let mut ra = Vec::new();
+      for _ in 0..n {
+        let (a, v) = gen_write(&mut rng);
+        memory_write_byte(p, a, v);
+        ws.push(format!("{}:{}", a, v));
+        rb.push(mem.cart_state.get_rom_bank().to_string());
+        mb.push(mem.cart_state.get_ram_bank().to_string());
+        r0.push(memory_read_byte(p, 0x0000).to_string());
+        r4.push(memory_read_byte(p, 0x4000).to_string());
+        ra.push(memory_read_byte(p, 0xa000).to_string());
+      }
+      writeln!(w, "c12 type={} rom={} ram={} ws={} | rb={} mb={} r0={} r4={} ra={}", t, r, m, ws.join(";"),
+        rb.join(","), mb.join(","), r0.join(","), r4.join(","), ra.join(",")).unwrap();
+    }
+  }}}
 }
